@@ -269,6 +269,56 @@ def run(tier, rep):
                 rep.violation(f"accepted-one-way-only:separate:{rname}", {"whole_program": whole["verdict"], "whole_diagnostics": [d_["msg"] for d_ in whole.get("diags", [])][:2],
                                                                           "separate": "build, build and link all succeeded"})
     rep.coverage["projects_rejected_both_ways"] = len(rejects)
+    # ---- packages of two files whose declarations depend on the order of the files (a trait must be declared before its impl):
+    # under every pair of file names - plain, mixed case, names that sort differently with and without case, digits, underscores -
+    # and with the dependent declaration in the first or the second file, both routes must give the same verdict (and the same
+    # program when they accept)
+    decl = "struct Sq { side: int32 }\ntrait Show { fn show(Self) -> string; }\nfn area(s: Sq) -> int32 { s.side * s.side }\n"
+    impl = "impl Show for Sq { fn show(self: Sq) -> string { \"Sq(\" + int32_to_string(self.side) + \")\" } }\nfn label(s: Sq) -> string { Show::show(s) }\n"
+    fmain = "package Main\nimport Shapes\n\nfn main() {\n    let s = Shapes::Sq { side: 3 };\n    let _ = string_println(Shapes::label(s) + int32_to_string(Shapes::area(s)));\n    ()\n}\n"
+    name_pairs = [("a.gom", "b.gom"), ("Types.gom", "impls.gom"), ("types.gom", "Impls.gom"), ("Zeta.gom", "alpha.gom"), ("_x.gom", "A.gom"),
+                  ("B2.gom", "b10.gom"), ("lib.gom", "Lib_impl.gom"), ("M.gom", "m.gom")]
+    forder_n = 0
+    for ni, (n1, n2) in enumerate(name_pairs):
+        for which in ("decl-in-" + n1, "decl-in-" + n2):
+            proj = os.path.join(root, f"forder_{ni}_{0 if which.endswith(n1) else 1}")
+            os.makedirs(f"{proj}/Shapes"); os.makedirs(proj + "/out")
+            first, second = (decl, impl) if which.endswith(n1) else (impl, decl)
+            open(f"{proj}/Shapes/{n1}", "w").write("package Shapes\n\n" + first)
+            open(f"{proj}/Shapes/{n2}", "w").write("package Shapes\n\n" + second)
+            open(f"{proj}/main.gom", "w").write(fmain)
+            whole = gv("compile", [{"id": which, "path": proj + "/main.gom"}])[0]
+            if whole["verdict"] in ("panic", "timeout"):
+                continue
+            forder_n += 1
+            sep_ok = True
+            for p2, fs in (("Shapes", [f"{proj}/Shapes/{n1}", f"{proj}/Shapes/{n2}"]), ("Main", [proj + "/main.gom"])):
+                ok, err, pan = cli(["build", "--package", p2, "--input"] + fs + ["--interface-path", f"{proj}/out", "--output", f"{proj}/out/{p2}"])
+                steps += 1
+                sep_ok = sep_ok and ok and not pan
+                if not sep_ok:
+                    break
+            if sep_ok:
+                ok, err, pan = cli(["link", "--input", f"{proj}/out/Shapes.core", f"{proj}/out/Main.core", "--output", f"{proj}/out/linked.go"])
+                steps += 1
+                sep_ok = ok and not pan
+            ident = f"file-order:{n1}+{n2}:{'declaration-first' if which.endswith(n1) else 'declaration-second'}"
+            if (whole["verdict"] == "ok") != sep_ok:
+                rep.violation(f"accepted-one-way-only:{ident}", {"whole_program": whole["verdict"], "whole_diagnostics": [d_["msg"] for d_ in whole.get("diags", [])][:2],
+                                                                "separate": "ok" if sep_ok else "rejected: " + err[:300]})
+            elif sep_ok:
+                shape_ = f"forder{ni}{'a' if which.endswith(n1) else 'b'}"
+                for nm, text in ((f"whole:{shape_}:0", whole["go"]), (f"linked:f:{shape_}:0:{ident}", open(f"{proj}/out/linked.go").read())):
+                    rec, e = gopipe.go_record(nm, text)
+                    if e:
+                        rep.violation(f"go-syntax:{ident}", {"error": e, "which": nm})
+                    else:
+                        go_recs.append(rec)
+    rep.coverage["file_order_projects"] = forder_n
+    forder_acc = len([1 for rc in go_recs if rc["name"].startswith("whole:forder")])
+    rep.coverage["file_order_projects_accepted"] = forder_acc
+    if forder_acc < 4:
+        raise ToolError(f"vacuity: only {forder_acc} of the file-order projects are accepted")
     for sname, pk in specials.items():
         proj = os.path.join(root, "special_" + sname)
         dep = [p_ for p_ in pk if p_ != "Main"][0]
